@@ -54,6 +54,7 @@ def run(rep: Report, tier: str) -> None:
 	rule_j(rep)
 	rule_k(rep, idx)
 	rule_l(rep, idx)
+	rule_unload_cascade(rep, idx)
 	# the cache is read in front of the parser's Errors.Syntax boundary: a file that exists must be a complete file (rule and reasoning in checks/c05.py)
 	from checks import c05
 	c05.rule_cache_file_complete(rep, idx, 'C07/cache-file-exists-only-when-complete')
@@ -826,6 +827,78 @@ def rule_l(rep: Report, idx: SourceIndex) -> None:
 				r.check(bool(seen_tests) or bool(counters), key, (rel, lp.lineno), f'{q} walks the base classes with a work-list (`{unparse(refills[0])[:70]}`) and never checks whether a class was visited before: for a cyclic hierarchy (`class A(B)` / `class B(A)`) and a looked-up member that no class on the cycle declares the loop never ends — no error is raised, the interactive loop hangs (the recursive form of such a walk ends in RecursionError -> Errors.Fatal)', unparse(lp.test))
 	if n_loops == 0:
 		r.ok('no-worklist-over-inherits', None, message='no while-loop of the semantics layer refills its work-list from .inherits (the walks are recursive)')
+
+
+def rule_unload_cascade(rep: Report, idx: SourceIndex) -> None:
+	"""Modules.unload follows the import graph upwards: every loaded module that imports the unloaded one is unloaded too, by recursion. The import graph
+	of the input may contain a cycle (`from __main__ import A` inside __main__, a imports b imports a): the recursion ends only because the entry it
+	started from is no longer registered when it comes back (`if module_path in self.__modules`). So the removal of the entry has to happen BEFORE the
+	recursive calls; removed afterwards, a self-importing module recurses until RecursionError, which is not an Errors.Error and ends the interactive loop."""
+	r = rep.rule('C07/unload-cascade-terminates', 'in Modules.unload the entry is removed from the registry (del / pop on self.__modules) on the way to every recursive self.unload(...): the membership guard at the top is what ends the cascade on an import cycle', floor=1)
+	m = idx.mod('rogw/tranp/module/modules.py')
+	cls = m.cls('Modules')
+	mu = cls.method('unload') if cls else None
+	if mu is None:
+		r.skip('Modules.unload', (m.relpath, 1), 'Modules.unload vanished')
+		return
+
+	def reaches_self(fn, depth: int = 0) -> bool:
+		for c_ in ast.walk(fn.node):
+			if isinstance(c_, ast.Call) and isinstance(c_.func, ast.Attribute) and isinstance(c_.func.value, ast.Name) and c_.func.value.id == 'self':
+				if c_.func.attr == 'unload':
+					return True
+				g = cls.method(c_.func.attr)
+				if g is not None and g is not fn and depth < 2 and reaches_self(g, depth + 1):
+					return True
+		return False
+
+	rec = []
+	for c_ in walk_no_nested(mu.node):
+		if isinstance(c_, ast.Call) and isinstance(c_.func, ast.Attribute) and isinstance(c_.func.value, ast.Name) and c_.func.value.id == 'self':
+			g = cls.method(c_.func.attr)
+			if c_.func.attr == 'unload' or (g is not None and g is not mu and reaches_self(g)):
+				rec.append(c_)
+	if not rec:
+		r.ok('no-recursion', mu.where, message='Modules.unload does not call itself')
+		return
+	guard = any(isinstance(x, ast.Compare) and isinstance(x.ops[0], (ast.In, ast.NotIn)) and '__modules' in unparse(x.comparators[0]) for x in walk_no_nested(mu.node))
+	if not guard:
+		r.skip('guard', mu.where, 'Modules.unload has no membership guard on self.__modules: how its recursion ends is not modelled')
+		return
+
+	def is_removal(st: ast.AST) -> bool:
+		for x in ast.walk(st):
+			if isinstance(x, ast.Delete) and any(isinstance(t, ast.Subscript) and '__modules' in unparse(t.value) for t in x.targets):
+				return True
+			if isinstance(x, ast.Call) and isinstance(x.func, ast.Attribute) and x.func.attr in ('pop', 'clear') and '__modules' in unparse(x.func.value):
+				return True
+		return False
+
+	pm = {}
+	for par in ast.walk(mu.node):
+		for fld in ('body', 'orelse', 'finalbody'):
+			blk = getattr(par, fld, None)
+			if isinstance(blk, list):
+				for i_, st in enumerate(blk):
+					if isinstance(st, ast.AST):
+						pm[id(st)] = (par, blk, i_)
+	def enclosing_stmt(n: ast.AST):
+		best = None
+		for st in ast.walk(mu.node):
+			if isinstance(st, ast.stmt) and id(st) in pm and any(x is n for x in ast.walk(st)):
+				if best is None or (st.lineno, st.col_offset) >= (best.lineno, best.col_offset):
+					best = st
+		return best
+	for c_ in rec:
+		st = enclosing_stmt(c_)
+		before = False
+		cur = st
+		while cur is not None and id(cur) in pm and not before:
+			par, blk, i_ = pm[id(cur)]
+			if any(is_removal(b) and not isinstance(b, (ast.If, ast.For, ast.While, ast.Try)) for b in blk[:i_]):
+				before = True
+			cur = par if isinstance(par, ast.stmt) and par is not mu.node else None
+		r.check(before, f'recursion:{unparse(c_)[:40]}', (m.relpath, c_.lineno), f'Modules.unload reaches `{unparse(c_)[:60]}` while the module it was called for is still registered in self.__modules (its removal comes later or on another path): for modules that import each other in a cycle — `from __main__ import A` typed into the interactive loop — every level finds the caller among the dependents again, the recursion ends in RecursionError (no Errors.Error) and the session ends', unparse(st)[:160] if st is not None else '')
 
 
 # ---- (m) the loading boundary ------------------------------------------------------------------------------------------------------
